@@ -1,7 +1,84 @@
-//! (stub - filled in by the corresponding check)
+//! spec -> impl replay of the spatio-temporal constraint table (spec/calc/GenC.tla) - property C20,
+//! calculator half.  Every case is a table given as two `add_constraints` calls plus the admission
+//! verdict of every probe (gap, distance) computed by TLC from Constraints.tla; limits and distances
+//! arrive in half units (exact in f32).
 use crate::common::*;
+use serde_json::{json, Value};
+use similari::trackers::spatio_temporal_constraints::SpatioTemporalConstraints;
+use std::collections::BTreeSet;
 
-pub fn main(_opts: &Opts) {
-    eprintln!("vh: engine not built yet");
-    std::process::exit(2);
+fn pairs(v: &Value) -> Vec<(usize, f32)> {
+    v.as_array()
+        .expect("call = array of pairs")
+        .iter()
+        .map(|p| (ji(&p[0]) as usize, ji(&p[1]) as f32 / 2.0))
+        .collect()
+}
+
+pub fn replay_case(idx: usize, c: &Value, rep: &mut Report, flip: bool) {
+    rep.cases += 1;
+    rep.sample(c);
+    let calls: Vec<Vec<(usize, f32)>> = jarr(c, "calls").iter().map(pairs).collect();
+    let dists: Vec<i64> = jarr(c, "dists").iter().map(ji).collect();
+    let adm = jarr(c, "adm");
+    // non-trivial: a gap configured twice, or a probe gap strictly between two configured gaps
+    let all: Vec<usize> = calls.iter().flatten().map(|p| p.0).collect();
+    let gaps: BTreeSet<usize> = all.iter().cloned().collect();
+    let dup = gaps.len() < all.len();
+    let between = (0..adm.len()).any(|g| gaps.iter().any(|a| *a < g) && gaps.iter().any(|b| *b > g));
+    if dup || between {
+        rep.nontrivial += 1;
+    }
+    if dup {
+        rep.count("duplicated_gap", 1);
+    }
+    if between {
+        rep.count("probe_between_gaps", 1);
+    }
+    let built = std::panic::catch_unwind(|| {
+        // first call through the builder-style API, the rest through add_constraints
+        let mut t = SpatioTemporalConstraints::default();
+        for (i, call) in calls.iter().enumerate() {
+            if i == 0 {
+                t = t.constraints(call);
+            } else {
+                t.add_constraints(call.clone());
+            }
+        }
+        t
+    });
+    let t = match built {
+        Ok(t) => t,
+        Err(_) => {
+            rep.mismatch("add_constraints:panic", idx, c, json!({}));
+            return;
+        }
+    };
+    for (g, row) in adm.iter().enumerate() {
+        for (j, e) in row.as_array().expect("adm row").iter().enumerate() {
+            rep.steps += 1;
+            let d = dists[j] as f32 / 2.0;
+            let exp = (ji(e) == 1) ^ flip;
+            match std::panic::catch_unwind(|| t.validate(g, d)) {
+                Ok(got) if got == exp => {}
+                Ok(got) => {
+                    let sig = format!("validate:spec={}:impl={}", exp, got);
+                    rep.mismatch(&sig, idx, c, json!({"gap": g, "dist": d, "limit_half_units": jarr(c, "lim")[g]}));
+                    return;
+                }
+                Err(_) => {
+                    rep.mismatch("validate:panic", idx, c, json!({"gap": g, "dist": d}));
+                    return;
+                }
+            }
+        }
+    }
+}
+
+pub fn main(opts: &Opts) {
+    // --perturb 1: liveness demonstration only (expects the opposite verdict for every probe)
+    let flip = opts.usize("perturb", 0) == 1;
+    let mut rep = Report::new();
+    for_each_case(opts, |idx, c| replay_case(idx, &c, &mut rep, flip));
+    rep.finish();
 }
